@@ -269,11 +269,22 @@ func immutableHistory(run *evid.Run, h int, wrapper bool) {
 	mo := &monitor{run: run, what: what, env: env, tags: map[string]obsTag{}, present: map[string][]byte{}, protect: map[string][]byte{}}
 	opts := model.GenOpts{Uploads: true, BadNames: h%4 == 0, BadRange: false}
 	run.Eval(1)
-	for i := 0; i < 40; i++ {
-		op := u.GenOp(rng, m, opts)
-		if rng.IntN(5) == 0 {
-			// extra pressure on tags and on deleting what tags reference
-			op = pressure(rng, u, m, mo)
+	var scripted []*model.Op
+	if h%4 == 2 && !wrapper {
+		// nested indexes with an entry that dangles in front of live siblings, all under one tag
+		scripted = u.NestedDanglingOps(rng, u.Repos[rng.IntN(len(u.Repos))], "nested")
+		run.Count(what+"/nested_dangling_prefixes", 1)
+	}
+	for i := 0; i < 40+len(scripted); i++ {
+		var op *model.Op
+		if i < len(scripted) {
+			op = scripted[i]
+		} else {
+			op = u.GenOp(rng, m, opts)
+			if rng.IntN(5) == 0 {
+				// extra pressure on tags and on deleting what tags reference
+				op = pressure(rng, u, m, mo)
+			}
 		}
 		mo.hist = append(mo.hist, op.String())
 		var out *model.Outcome
